@@ -25,6 +25,8 @@ def feature_row(rng, ncl, vanish=False):
     """first-PC row: positive squares sum to a power of two; zeros may become negative values; or no positive part"""
     if vanish:
         return [float(-rng.randint(0, 8)) for _ in range(ncl)]
+    if rng.random() < 0.3:          # any small integers: the division rounds, judged to 2^-48 relative
+        return [float(rng.randint(-8, 8)) for _ in range(ncl)]
     t = list(rng.choice(pow2_rows(ncl)))
     return [float(x) if x > 0 else float(-rng.randint(0, 8)) for x in t]
 
